@@ -446,6 +446,29 @@ fn check_def(ctx: &mut Ctx, c: &SCase, s: Stat) -> R {
             n
         );
     }
+    // the covariance of a series with itself, passed as the *same* slice twice (x aliased with y): the value is
+    // the variance with the function's own divisor; an identity shortcut must not change it
+    if s.biv() {
+        let (want, tol, _) = reference(s, &c.x, &c.x);
+        let sig = format!("C08/{}", sub);
+        let got = match catch(|| match s {
+            Stat::Cov => st::covariance(&c.x, &c.x),
+            Stat::SampleCov => st::sample_covariance(&c.x, &c.x),
+            Stat::OnePass => st::sample_covariance_onepass(&c.x, &c.x),
+            _ => st::sample_covariance_online(&c.x, &c.x),
+        }) {
+            Ok(v) => v,
+            Err(msg) => return fail(format!("{}/panic", sig), format!("{}(x, x) panicked on valid data {}: {}", s.func(), show(&c.x), msg)),
+        };
+        let diff = (got - want).abs();
+        ctx.worst(&format!("{}(x, x) |got-def|/tol", s.func()), ratio(diff, tol));
+        ensure!(
+            diff <= tol,
+            sig,
+            "{}(x, x) with the same slice passed twice, x={}: {:e}, definition gives {:e} (difference {:e}, rounding allowance {:e}, n = {})",
+            s.func(), show(&c.x), got, want, diff, tol, n
+        );
+    }
     Ok(())
 }
 
